@@ -119,11 +119,10 @@ def validate(ctx, merged, prop_clause='cover'):
     items = []
     for ex in merged['extra']:
         items.extend(ex.get('traces', []))
-    # deviations beyond the cap were not judged: if none of the judged ones was rejected the run cannot conclude
-    if merged['counters'].get('deviations_not_kept') and not ctx.violations:
-        raise common.MachineryError('too many deviating trees to validate (%d dropped)'
-                                    % merged['counters']['deviations_not_kept'])
+    dropped = merged['counters'].get('deviations_not_kept')
     if not items:
+        if dropped:
+            raise common.MachineryError('deviating executions were dropped and none kept')
         return
     flags, diags = common.validate_traces(ctx, 'TraceTree', [it[1] for it in items], what='C->S TraceTree acceptor')
     ctx.traces_validated += len(items)
@@ -140,6 +139,9 @@ def validate(ctx, merged, prop_clause='cover'):
         ctx.violation('acceptor-rejects', case, detail=d,
                       sig=dict(clause='acceptor-rejects', kind=tr['kind'],
                                failed=','.join(d.get('failed_clauses', [])) or '?'))
+    # deviations beyond the cap were not judged: if none of the judged ones was rejected the run cannot conclude
+    if dropped and not ctx.violations:
+        raise common.MachineryError('too many deviating executions to validate (%d dropped)' % dropped)
 
 
 def run(ctx):
